@@ -920,6 +920,22 @@ pub fn run(session: &Session, prop: &'static RefProp, rule: &str) -> i32 {
         }
     }
     if prop.id == "C06" && !session.stopped() {
+        // the fields of a struct literal are not declarations: a later field's initialiser that mentions
+        // the name of an earlier field means the variable of the enclosing scope
+        for (text, expected) in [
+            ("h := () -> int { return 10; }; n := h(); s := struct{n := n + 1, m := n}; (s.n, s.m, n)", "value (11, 10, 10)"),
+            ("f := (n: int) -> any { s := struct{n := n * 2, m := n, k := n + 1}; return (s.n, s.m, s.k); }; f(5)", "value (10, 5, 6)"),
+            ("c := mut 1; s := struct{c := 5, d := *c}; (s.c, s.d)", "value (5, 1)"),
+            ("h := () -> int { return 10; }; n := h(); f := () -> any { s := struct{n := \"s\", m := n + 1}; return s.m; }; f()", "value 11"),
+            ("n := 3; s := struct{n := n + 1, m := n}; (s.n, s.m)", "value (4, 3)"),
+            ("h := () -> int { return 10; }; n := h(); s := struct{n, m := n + 1, k := struct{n := 0, j := n}}; (s.n, s.m, s.k.j)", "value (10, 11, 10)"),
+        ] {
+            if !session.stopped() {
+                session.run_one(prop, &json!({"kind": "probe", "sig": "C06:struct-field-scope", "text": text, "expected": expected}));
+            }
+        }
+    }
+    if prop.id == "C06" && !session.stopped() {
         let cases = host_scope_cases();
         session.set_extra("host_scope_cases", json!(cases.len()));
         session.run_enum(prop, cases);
@@ -928,6 +944,47 @@ pub fn run(session: &Session, prop: &'static RefProp, rule: &str) -> i32 {
         let cases = scope_cases();
         session.set_extra("binder_scope_cases", json!(cases.len()));
         session.run_enum(prop, cases);
+    }
+    if prop.id == "C11" && !session.stopped() {
+        // an adapter keeps no memory of its source having ended: a source that reports the end and later
+        // yields again (a queue that is refilled) is pulled again by every stage above it
+        let queue = "buf := mut [int] [1, 2]; pulls := mut 0; next := () -> (bool, int) { pulls += 1; if std.len(*buf) == 0 { return (false, 0); } v := (*buf)[0]; buf = (*buf)[1:]; return (true, v); }; ";
+        for (stage, first, second) in [
+            ("next @ (x: int) -> int { return x * 10; }", "[10, 20]", "[30, 40]"),
+            ("next ? (x: int) -> bool { return x % 2 == 0; }", "[2]", "[4]"),
+            ("next ? int", "[1, 2]", "[3, 4]"),
+            ("next ? (x: int) -> bool { return x > 0; } @ (x: int) -> int { return x + 1; }", "[2, 3]", "[4, 5]"),
+            ("next", "[1, 2]", "[3, 4]"),
+        ] {
+            let text = format!("{queue}m := {stage}; a := m $]; buf += [3, 4]; b := m $]; c := m $]; (a, b, c, *pulls)");
+            let expected = format!("value ({first}, {second}, [], 7)");
+            if !session.stopped() {
+                session.run_one(prop, &json!({"kind": "probe", "sig": "C11:resumed-source", "text": text, "expected": expected}));
+            }
+            let text = format!("{queue}m := {stage}; a := m $+; buf += [3, 4]; (x, y) := m(); (a > 0, x, y > 0)");
+            if !session.stopped() {
+                session.run_one(prop, &json!({"kind": "probe", "sig": "C11:resumed-source", "text": text, "expected": "value (true, true, true)"}));
+            }
+        }
+    }
+    if prop.id == "C12" && !session.stopped() {
+        // arrays of compound elements of several types: the arm, if-set and while-set that run are decided by
+        // all the elements, not by the first one
+        for (values, narrow, wide) in [
+            ("[[1, 2], [2.5]]", "[[int]]", "[[int]|[float]]"),
+            ("[(1, 2), (1, \"s\")]", "[(int, int)]", "[(int, int)|(int, string)]"),
+            ("[struct{a := 1}, struct{a := \"s\"}]", "[struct{a: int}]", "[struct{a: int}|struct{a: string}]"),
+            ("[mut 1, mut 2.5]", "[mut int]", "[mut int|mut float]"),
+            ("[[], [1], [\"s\"]]", "[[int]]", "[[int]|[string]]"),
+            ("[() -> int { return 1; }, () -> string { return \"s\"; }]", "[()->int]", "[()->int|()->string]"),
+        ] {
+            let text = format!(
+                "classify := (x: any) -> int {{ return match x {{ a: {narrow} => 1, a: {wide} => 2, => 3, }}; }}; test := (x: any) -> int {{ if a: {narrow} = x {{ return 10; }} return 20; }}; walk := (x: any) -> int {{ n := mut 0; while a: {narrow} = x {{ n += 1; break; }}; return *n; }}; v := {values}; w := [v[0]]; (classify(v), test(v), walk(v), classify(w), test(w))"
+            );
+            if !session.stopped() {
+                session.run_one(prop, &json!({"kind": "probe", "sig": "C12:array-of-compounds", "text": text, "expected": "value (2, 20, 0, 1, 10)"}));
+            }
+        }
     }
     if prop.id == "C12" && !session.stopped() {
         // loops evaluate to (), however their bodies end and however often they run: the value, what the
